@@ -63,7 +63,13 @@ def token_roundtrip_worker(args):
         f_parse = fn(M, '<HandRangeToken as FromStr>::from_str')
         bs, recs = tokens.explore(M, L, want_expand=False, byte_cons=tokens.part_cons(part, parts))
         out['paths'] = len(recs)
+        stop_file = os.path.join(os.path.dirname(mir), 'stop-on-first-counterexample')
         for r in recs:
+            if os.path.exists(stop_file):
+                out['stopped_early'] = True
+                break
+            if out['bad'] and not any(b_['key'] == 'weight=neg-zero' for b_ in out['bad'][-1:]):
+                open(stop_file, 'a').close()
             if r['kind'] != 'Ok' or r.get('panic'):
                 continue
             for pc, buf in r.get('texts', []):
@@ -113,7 +119,13 @@ def token_value_worker(args):
             if body[0] == body[1] and len(body) == 2:
                 return Enum('RankPair', 'Pocket', [R(body[0])])
             return Enum('RankPair', 'Suited' if body[2] == 's' else 'Ofsuit', [R(body[0]), R(body[1])])
+        stop_file = os.path.join(os.path.dirname(mir), 'stop-on-first-counterexample')
         for sh in shapes:
+            if os.path.exists(stop_file):
+                out['stopped_early'] = True
+                break
+            if out['bad']:
+                open(stop_file, 'a').close()
             if len(sh) == 4 and sh[1] in SUIT_CH:
                 cp = run_fn(M, f_cpnew, [mk_card(RANK_CH.index(sh[0]), SUIT_CH.index(sh[1])), mk_card(RANK_CH.index(sh[2]), SUIT_CH.index(sh[3]))])[0].result
                 kind = Enum('HandRangeTokenKind', 'SingleCardPair', [cp])
@@ -189,7 +201,7 @@ def run(PID, mode, a, seed, t0):
             results = r1.get(); tres = r2.get(); vres = r3.get()
         tres = tres + [dict(v, L='values') for v in vres]
         errs = [r for r in results if r['error']] + [r for r in tres if r['error']]
-        stopped = [r for r in results if r.get('stopped_early')]
+        stopped = [r for r in results + tres if r.get('stopped_early')]
         for e in errs[:3]:
             obs.append(Obligation('engine', 'inconclusive', f"{e.get('cfg', e.get('L'))}: {e['error']}"))
         bad = [b for r in results for b in r['bad']] + [dict(b, cfg=dict(token_length=r['L'])) for r in tres for b in r['bad']]
